@@ -309,6 +309,23 @@ func swCase[B, S emulated.FieldParams](cname, op string, complete bool) *gcase {
 					}
 				}
 			}
+			if op == "addunified" {
+				// special points of the curve itself: abscissa 0 exists whenever b is a square
+				// (P-256, P-384, BLS12-381), and is an ordinary point there, not infinity
+				if y0 := new(big.Int).ModSqrt(new(big.Int).Mod(rc.b, rc.p), rc.p); y0 != nil {
+					z := &refPt{big.NewInt(0), y0}
+					switch tape.Choose(simrt.SWorkload, 6) {
+					case 0:
+						P = z
+					case 1:
+						Q = z
+					case 2:
+						P, Q = z, rc.neg(z)
+					case 3:
+						P, Q = z, z
+					}
+				}
+			}
 			if op == "add" && (P == nil || Q == nil || P.x.Cmp(Q.x) == 0) {
 				Q = rc.add(rc.add(P, P), rc.gen())
 			}
@@ -1049,6 +1066,7 @@ var c16Cases = func() []*gcase {
 		swCase[k1, r1]("secp256k1", "mul", false), swCase[k1, r1]("secp256k1", "mul", true),
 		swCase[k1, r1]("secp256k1", "mulbase", false), swCase[k1, r1]("secp256k1", "jointbase", false),
 		swCase[k1, r1]("secp256k1", "msm", false), swCase[k1, r1]("secp256k1", "addunified", false),
+		swCase[emulated.P256Fp, emulated.P256Fr]("p256", "addunified", false), swCase[emulated.BLS12381Fp, emulated.BLS12381Fr]("bls12381", "addunified", false),
 		swCase[emulated.P256Fp, emulated.P256Fr]("p256", "mul", false), swCase[emulated.P256Fp, emulated.P256Fr]("p256", "mul", true),
 		swCase[emulated.P256Fp, emulated.P256Fr]("p256", "mulbase", true), swCase[emulated.P256Fp, emulated.P256Fr]("p256", "jointbase", false),
 		swCase[emulated.BN254Fp, emulated.BN254Fr]("bn254", "mul", true), swCase[emulated.BN254Fp, emulated.BN254Fr]("bn254", "msm", true),
@@ -1066,7 +1084,7 @@ var c16Cases = func() []*gcase {
 }()
 
 var c16Thorough = []*gcase{
-	swCase[emulated.P384Fp, emulated.P384Fr]("p384", "mul", true),
+	swCase[emulated.P384Fp, emulated.P384Fr]("p384", "mul", true), swCase[emulated.P384Fp, emulated.P384Fr]("p384", "addunified", false),
 	swCase[emulated.BW6761Fp, emulated.BW6761Fr]("bw6761", "mul", false),
 	ecdsaCase[emulated.P384Fp, emulated.P384Fr]("p384"),
 }
